@@ -79,3 +79,45 @@ func txPinnedLostUpdate(t *testing.T, srv *vsql.Server, admin *vsql.Session) {
 			fmt.Sprintf(`{"history":["D: INSERT dup -> 1062","A: UPDATE t SET c1=5 WHERE pk=2 -> ok","D: UPDATE t SET c1=6 WHERE pk=2"],"want":"ok","got":"%v"}`, e))
 	}
 }
+
+// C23, finding txFindingHeadArtifact: a dolt_commit inside a transaction whose head-level merge
+// conflicts (delete against modification) while its working-set merge does not. The statement
+// succeeds; the new head commit must not carry an unresolved conflict, and a branch created from
+// it must not be born in conflict.
+func txPinnedHeadArtifact(t *testing.T, srv *vsql.Server, admin *vsql.Session) {
+	db := srv.NewDBName()
+	admin.MustExec(t, "CREATE DATABASE "+db)
+	defer admin.Exec("DROP DATABASE " + db)
+	a := txOpen(t, srv, "A", db)
+	defer a.Close()
+	c := txOpen(t, srv, "C", db)
+	defer c.Close()
+	a.MustExec(t, "CREATE TABLE t (pk INT PRIMARY KEY, c1 INT)")
+	a.MustExec(t, "INSERT INTO t VALUES (1,1),(5,0)")
+	a.MustExec(t, "CALL dolt_commit('-Am','init')")
+	a.MustExec(t, "UPDATE t SET c1=NULL WHERE pk=5") // committed to the working set only
+	c.MustExec(t, "BEGIN")
+	c.MustQuery(t, "SELECT * FROM t") // C's snapshot: working (5,NULL), head (5,0)
+	a.MustExec(t, "DELETE FROM t WHERE pk=5")
+	a.MustExec(t, "CALL dolt_commit('-am','A deletes 5')")
+	if err := c.Exec("CALL dolt_commit('-am','C commits its view')"); err != nil {
+		if vsql.ErrCode(err) == 1213 {
+			return // rejected as a conflicting transaction: leaves no trace, fine
+		}
+		t.Fatalf("pinned: C's dolt_commit: %v", err)
+	}
+	inHead := a.MustQuery(t, "SELECT COUNT(*) FROM dolt_conflicts_t AS OF 'main'").Data[0][0]
+	inWorking := a.MustQuery(t, "SELECT COUNT(*) FROM dolt_conflicts").Data[0][0]
+	a.MustExec(t, "CALL dolt_branch('fromhead','main')")
+	st := a.MustQuery(t, "SELECT table_name, status FROM `"+db+"/fromhead`.dolt_status").Sorted()
+	if inHead != "0" || len(st) != 0 {
+		what := "dolt_commit inside a transaction succeeded and wrote a head commit that carries an unresolved conflict (the head-level merge conflicted, the working-set merge did not); a branch created from it is born with dolt_status 'conflict'"
+		detail := fmt.Sprintf(`{"history":["t(pk,c1): (1,1),(5,0) committed","autocommit: UPDATE t SET c1=NULL WHERE pk=5","C: BEGIN; SELECT * FROM t","A: DELETE FROM t WHERE pk=5; CALL dolt_commit('-am',..)","C: CALL dolt_commit('-am',..) -> ok"],"dolt_conflicts_t AS OF main":"%s rows","dolt_conflicts (working set)":"%s tables","dolt_status of a branch created from main":"%s"}`, inHead, inWorking, vsql.Show(st))
+		if vh.OpenFinding("C23", txFindingHeadArtifact) {
+			vh.ReportKnown("C23", txFindingHeadArtifact, what)
+			return
+		}
+		vh.NoteViolation(t.Name(), "", detail)
+		t.Errorf("%s\n%s", what, detail)
+	}
+}
